@@ -1,7 +1,7 @@
 #[cfg(kani)]
 mod verif_ctor {
     use super::*;
-    use crate::layout::{Layout, NdLayout};
+    use crate::layout::{Layout, MutLayout, NdLayout, OverlapPolicy};
 
     const MAXLEN: usize = 4;
 
@@ -150,23 +150,27 @@ mod verif_ctor {
 
     /// TensorBase::expanded_layout / has_capacity / append (capacity expansion of owned tensors):
     /// a layout returned for growing `axis` fits the Vec's capacity and maps distinct indices to
-    /// distinct offsets. Concrete small shapes (so the overlap check sorts a concrete length),
-    /// symbolic strides, symbolic axis.
+    /// distinct offsets. The tensor is built directly from a concrete small shape and symbolic
+    /// strides, under the type's invariant for owned (mutable) tensors -- the layout is injective
+    /// ($inj, the explicit condition for that shape) and fits the data -- so that the only
+    /// overlap computation in the harness is the one inside expanded_layout.
     macro_rules! expanded_layout_ok {
-        ($name:ident, $shape:expr) => {
+        ($name:ident, $shape:expr, $axis:expr, $inj:expr) => {
             #[kani::proof]
             #[kani::unwind(12)]
             pub fn $name() {
                 let shape: [usize; 2] = $shape;
                 let (s0, s1): (u8, u8) = (kani::any(), kani::any());
+                kani::assume(s0 <= 16 && s1 <= 16);
                 let strides = [s0 as usize, s1 as usize];
-                let mut data: Vec<u8> = Vec::with_capacity(16);
-                let len: usize = kani::any();
-                kani::assume(len <= 16);
-                data.resize(len, 0);
-                let Ok(t) = NdTensor::<u8, 2>::from_data_with_strides(shape, data, strides) else { return; };
-                let axis: usize = kani::any();
-                kani::assume(axis < 2);
+                let inj: fn(usize, usize) -> bool = $inj;
+                kani::assume(inj(strides[0], strides[1]));
+                let layout = NdLayout::<2>::from_shape_and_strides(shape, strides, OverlapPolicy::AllowOverlap).unwrap();
+                kani::assume(layout.min_data_len() <= 16);
+                let t: TensorBase<Vec<u8>, NdLayout<2>> = TensorBase { data: vec![0u8; 16], layout };
+                // concrete axis: the expanded shape is concrete, so the overlap check inside
+                // expanded_layout collects and sorts a concrete number of dims
+                let axis: usize = $axis;
                 let new_size = shape[axis] + 1;
                 if let Some(l) = t.expanded_layout(axis, new_size) {
                     assert!(l.min_data_len() <= 16, "expanded layout exceeds the capacity");
@@ -182,9 +186,15 @@ mod verif_ctor {
             }
         };
     }
-    expanded_layout_ok!(expanded_layout_no_alias_1x4, [1, 4]);
-    expanded_layout_ok!(expanded_layout_no_alias_2x2, [2, 2]);
-    expanded_layout_ok!(expanded_layout_no_alias_3x1, [3, 1]);
+    // [1,4]: offsets {k*s1}: injective iff s1 != 0 (the stride of the size-1 dim is irrelevant)
+    expanded_layout_ok!(expanded_layout_no_alias_1x4_axis0, [1, 4], 0, |_s0, s1| s1 != 0);
+    expanded_layout_ok!(expanded_layout_no_alias_1x4_axis1, [1, 4], 1, |_s0, s1| s1 != 0);
+    // [2,2]: offsets {0, s1, s0, s0+s1}
+    expanded_layout_ok!(expanded_layout_no_alias_2x2_axis0, [2, 2], 0, |s0, s1| s0 != 0 && s1 != 0 && s0 != s1);
+    expanded_layout_ok!(expanded_layout_no_alias_2x2_axis1, [2, 2], 1, |s0, s1| s0 != 0 && s1 != 0 && s0 != s1);
+    // [3,1]: offsets {k*s0}
+    expanded_layout_ok!(expanded_layout_no_alias_3x1_axis0, [3, 1], 0, |s0, _s1| s0 != 0);
+    expanded_layout_ok!(expanded_layout_no_alias_3x1_axis1, [3, 1], 1, |s0, _s1| s0 != 0);
 
     #[kani::proof]
     pub fn canary() {
